@@ -6,7 +6,7 @@ use crate::report::*;
 
 pub fn run(tier: Tier, seed: u64) -> i32 {
     let mut rep = Report::new("C05", tier, seed);
-    rep.rule = "history workload H on the real program (mini-SVM): after EVERY successful instruction the pool account, all Position accounts of the pool (found by scanning the bank) and all tick arrays (both encodings, harness decoders) are compared: pool.liquidity == sum of positions with lower <= tick_current < upper; every tick's net/gross == signed/unsigned sums over positions bounded by it; initialized <=> gross > 0; no bound without a tick. distinct = (instruction, #ticks crossed bucket) and (#positions, #in range, #fixed arrays, #dynamic arrays) buckets".into();
+    rep.rule = "history workload H on the real program (mini-SVM): after EVERY successful instruction the pool account, all Position accounts of the pool (found by scanning the bank) and all tick arrays (both encodings, harness decoders) are compared: pool.liquidity == sum of positions with lower <= tick_current < upper; every tick's net/gross == signed/unsigned sums over positions bounded by it; initialized <=> gross > 0; no bound without a tick. The workload includes Pinocchio repositions (also onto degenerate, inverted and out-of-bounds ranges, which must be refused), range resets, bundles and locks. distinct = (instruction, #ticks crossed bucket) and (#positions, #in range, #fixed arrays, #dynamic arrays) buckets".into();
     rep.assumptions = vec![
         "native mini-SVM reproduces loader serialisation, CPI privileges and post-instruction account rules; CPIs run the real spl-token / token-2022 processors".into(),
         "histories are sampled (seeded), not enumerated".into(),
@@ -16,7 +16,7 @@ pub fn run(tier: Tier, seed: u64) -> i32 {
     let acc = run_histories(
         seed,
         per_shard,
-        move |_r| HistCfg { ops, w_swap: 50, w_liq: 32, w_fees: 6, w_lifecycle: 6, w_clock: 2, w_setters: 2, ..Default::default() },
+        move |_r| HistCfg { ops, lifecycle_ext: true, w_swap: 48, w_liq: 30, w_fees: 5, w_lifecycle: 13, w_clock: 2, w_setters: 2, ..Default::default() },
         || vec![Box::new(C05::default()) as Box<dyn Monitor>],
     );
     rep.acc = acc;
@@ -25,5 +25,7 @@ pub fn run(tier: Tier, seed: u64) -> i32 {
     rep.floor("tick_crossings", 300);
     rep.floor("swaps_ending_on_tick", 50);
     rep.floor("swaps_ending_at_bound", 10);
+    rep.floor("ix:reposition_liquidity_v2:ok", 100);
+    rep.floor("ix:reposition_liquidity_v2:err", 30);
     rep.finish()
 }
